@@ -451,10 +451,41 @@ pub fn peer_up_with_info(i: usize, k: u64) -> Vec<u8> {
     match k % 3 { 0 => m.extend(tlv(0, b"peer note")), 1 => { m.extend(tlv(0, b"")); m.extend(tlv(0, b"second")); } _ => m.extend(tlv(3, b"vrf-red")) }
     set_len(m)
 }
+/// A long text for an information TLV: `total` bytes (around the sizes at which a receiver may cap, copy or index:
+/// 255 / 256 / 1024 / 4096), `lead` ASCII bytes followed by one repeated character of 2, 3 or 4 UTF-8 bytes, or by
+/// bytes that are not UTF-8 at all (lossy decoding turns each into a 3-byte U+FFFD) — so that every byte offset near
+/// a limit falls inside a character for some choice.
+pub fn long_text(g: &mut crate::rng::Rng) -> Vec<u8> {
+    let total = *g.pick(&[250usize, 254, 255, 256, 257, 300, 1023, 1024, 1025, 4095, 4096, 4097]) + g.below(4) as usize;
+    let lead = g.below(5) as usize;
+    let unit: &[u8] = match g.below(5) { 0 => "\u{e9}".as_bytes(), 1 => "\u{20ac}".as_bytes(), 2 => "\u{1f600}".as_bytes(), 3 => &[0xff], _ => b"<" };
+    let mut v = vec![b'a'; lead];
+    while v.len() + unit.len() <= total { v.extend_from_slice(unit); }
+    while v.len() < total { v.push(b'z'); }
+    v
+}
+/// Initiation whose sysName, sysDescr or free-form string TLV is a `long_text`.
+pub fn initiation_long(g: &mut crate::rng::Rng) -> Vec<u8> {
+    let t = long_text(g);
+    let body: Vec<u8> = match g.below(4) {
+        0 => [tlv(2, &t), tlv(1, b"verif-descr")].concat(),
+        1 => [tlv(2, b"verif-sys"), tlv(1, &t)].concat(),
+        2 => [tlv(2, b"verif-sys"), tlv(1, b"verif-descr"), tlv(0, &t)].concat(),
+        _ => { let u = long_text(g); [tlv(2, &t), tlv(1, &u)].concat() }
+    };
+    frame(4, &body)
+}
+/// Termination / Peer Up carrying a long free-form string.
+pub fn termination_long(g: &mut crate::rng::Rng) -> Vec<u8> { let t = long_text(g); frame(5, &[tlv(0, &t), tlv(1, &[0, 1])].concat()) }
+pub fn peer_up_long(i: usize, g: &mut crate::rng::Rng) -> Vec<u8> { let t = long_text(g); let mut m = peer_up(i); m.extend(tlv(0, &t)); set_len(m) }
+
 /// Any legal variant of any message kind for peers 0..3 (the plain encode-helper forms included).
 pub fn any_variant(g: &mut crate::rng::Rng) -> Vec<u8> {
     let i = g.below(3) as usize;
-    match g.below(9) {
+    match g.below(12) {
+        9 => initiation_long(g),
+        10 => termination_long(g),
+        11 => peer_up_long(i, g),
         0 => initiation_variant(g.below(N_INITIATION_VARIANTS)),
         1 => termination_variant(g.below(N_TERMINATION_VARIANTS)),
         2 => peer_down_variant(i, g.below(N_PEER_DOWN_VARIANTS)),
